@@ -45,40 +45,57 @@ def r1(ctx, chk):
         chk.ob(rule, "%s = ^%s(10 digits)(3 digits)?(3 digits)?" % (name, "-" if neg else ""), ok, "shape %s" % sh,
                key={"construct": name}, file="dateparser/date.py", function="<module>", line=None)
     f = ix.func("dateparser.date:get_date_from_timestamp")
-    # def-use: names bound to int(match.group(k) [or 0])
-    grp = {}
-    raw = set()
+    # def-use: which names hold the matched TEXT of group k (raw) and which hold its integer value (intn), whatever they are called
+    raw, intn, int_forms = {}, {}, {}
     for n in iter_own_nodes(f.node):
-        if isinstance(n, ast.Assign) and isinstance(n.targets[0], ast.Name) and isinstance(n.value, ast.Call) and ast.unparse(n.value.func) == "int":
-            for c in ast.walk(n.value):
-                if isinstance(c, ast.Call) and isinstance(c.func, ast.Attribute) and c.func.attr == "group" and c.args and isinstance(c.args[0], ast.Constant):
-                    grp[n.targets[0].id] = c.args[0].value
-    # the same bindings through one unpacking: a, b, c = match.groups()  /  (int(x or 0) for x in match.groups())
-    if len(grp) < 3:
-        for n in iter_own_nodes(f.node):
-            if isinstance(n, ast.Assign) and isinstance(n.targets[0], ast.Tuple) and all(isinstance(e_, ast.Name) for e_ in n.targets[0].elts) \
-                    and any(isinstance(c, ast.Call) and isinstance(c.func, ast.Attribute) and c.func.attr == "groups" for c in ast.walk(n.value)):
-                names = [e_.id for e_ in n.targets[0].elts]
-                # each must become an int: directly in the unpacked expression or by a later int(name ..) rebinding
-                ints = any(isinstance(c, ast.Call) and ast.unparse(c.func) == "int" for c in ast.walk(n.value))
-                for i_, nm in enumerate(names):
-                    rebound = any(isinstance(m_, ast.Assign) and isinstance(m_.targets[0], ast.Name) and m_.targets[0].id == nm
-                                  and isinstance(m_.value, ast.Call) and ast.unparse(m_.value.func) == "int"
-                                  and any(isinstance(x, ast.Name) and x.id == nm for x in ast.walk(m_.value)) for m_ in iter_own_nodes(f.node))
-                    converted = any(isinstance(c, ast.Call) and ast.unparse(c.func) == "int" and " ".join(ast.unparse(c).split()) in
-                                    ("int(%s)" % nm, "int(%s or 0)" % nm) for c in iter_own_nodes(f.node))
-                    if ints or rebound or converted:
-                        grp[nm] = i_ + 1
-                    if not ints and not rebound:
-                        raw.add(nm)             # the name holds the matched text: only int(<name>) is the number
-    chk.floor(rule, len(grp), 3, "names bound to int(match.group(k))")
-    if len(grp) < 3:
+        if isinstance(n, ast.Assign) and len(n.targets) == 1:
+            t, v = n.targets[0], n.value
+            if isinstance(t, (ast.Tuple, ast.List)) and all(isinstance(e_, ast.Name) for e_ in t.elts) and isinstance(v, ast.Call) \
+                    and isinstance(v.func, ast.Attribute) and v.func.attr == "groups" and not v.args:
+                for i_, e_ in enumerate(t.elts):
+                    raw[e_.id] = i_ + 1
+            elif isinstance(t, ast.Name) and isinstance(v, ast.Call) and isinstance(v.func, ast.Attribute) and v.func.attr == "group" \
+                    and len(v.args) == 1 and isinstance(v.args[0], ast.Constant):
+                raw[t.id] = v.args[0].value
+
+    def int_of_group(e):
+        """k when e is int(<text of group k>) or int(<text of group k> or 0)"""
+        if not (isinstance(e, ast.Call) and ast.unparse(e.func) == "int" and len(e.args) == 1 and not e.keywords):
+            return None
+        a_ = e.args[0]
+        if isinstance(a_, ast.BoolOp) and isinstance(a_.op, ast.Or) and len(a_.values) == 2 and isinstance(a_.values[1], ast.Constant) and a_.values[1].value == 0:
+            a_ = a_.values[0]
+        if isinstance(a_, ast.Call) and isinstance(a_.func, ast.Attribute) and a_.func.attr == "group" and len(a_.args) == 1 and isinstance(a_.args[0], ast.Constant):
+            return a_.args[0].value
+        if isinstance(a_, ast.Name) and a_.id in raw:
+            return raw[a_.id]
+        return None
+    for n in iter_own_nodes(f.node):
+        k_ = int_of_group(n) if isinstance(n, ast.Call) else None
+        if k_ is not None:
+            int_forms.setdefault(k_, set()).add(" ".join(ast.unparse(n).split()))
+        if isinstance(n, ast.Assign) and len(n.targets) == 1 and isinstance(n.targets[0], ast.Name) and int_of_group(n.value) is not None:
+            intn[n.targets[0].id] = int_of_group(n.value)
+    # a generator that converts every group at once: a, b, c = (int(x or 0) for x in match.groups())
+    for n in iter_own_nodes(f.node):
+        if isinstance(n, ast.Assign) and isinstance(n.targets[0], (ast.Tuple, ast.List)) and all(isinstance(e_, ast.Name) for e_ in n.targets[0].elts) \
+                and isinstance(n.value, (ast.GeneratorExp, ast.ListComp)) and len(n.value.generators) == 1 \
+                and isinstance(n.value.generators[0].iter, ast.Call) and isinstance(n.value.generators[0].iter.func, ast.Attribute) \
+                and n.value.generators[0].iter.func.attr == "groups" and isinstance(n.value.generators[0].target, ast.Name):
+            v_ = n.value.generators[0].target.id
+            if " ".join(ast.unparse(n.value.elt).split()) in ("int(%s)" % v_, "int(%s or 0)" % v_):
+                for i_, e_ in enumerate(n.targets[0].elts):
+                    intn[e_.id] = i_ + 1
+    for nm in list(intn):
+        raw.pop(nm, None) if False else None
+    covered = set(intn.values()) | set(int_forms)
+    chk.floor(rule, len(covered & {1, 2, 3}), 3, "names bound to int(match.group(k))")
+    if len(covered & {1, 2, 3}) < 3:
         return          # nothing to reason about: reported as ANALYSIS-ERROR by the floor
     ft = [n for n in iter_own_nodes(f.node) if isinstance(n, ast.Call) and ast.unparse(n.func).endswith("fromtimestamp")]
     a0 = ft[0].args[0] if len(ft) == 1 and ft[0].args else None
-    ok = (isinstance(a0, ast.Name) and grp.get(a0.id) == 1 and a0.id not in raw) or (
-        isinstance(a0, ast.Call) and ast.unparse(a0.func) == "int" and len(a0.args) == 1 and isinstance(a0.args[0], ast.Name)
-        and grp.get(a0.args[0].id) == 1)
+    rebound_raw = {nm for nm in raw if nm in intn}      # `seconds = int(seconds)`: after it the name holds the number
+    ok = (isinstance(a0, ast.Name) and intn.get(a0.id) == 1) or (a0 is not None and int_of_group(a0) == 1)
     chk.ob(rule, "fromtimestamp receives group 1 (the 10-digit seconds) and nothing else", ok, "",
            key={"construct": "seconds argument"}, file=f.file, function=f.qual, line=f.node.lineno)
     ms = None
@@ -92,7 +109,12 @@ def r1(ctx, chk):
             for k in n.keywords:
                 if k.arg == "microseconds":
                     ms = k.value
-    syms = {"g%d" % g: ({"int(%s)" % name, "int(%s or 0)" % name} if name in raw else {name}) for name, g in grp.items()}
+    syms = {}
+    for name, g in intn.items():
+        syms.setdefault("g%d" % g, set()).add(name)
+    for g, forms in int_forms.items():
+        syms.setdefault("g%d" % g, set()).update(forms)
+    grp = intn
     for _ in range(3):          # a local that only names the sum
         if isinstance(ms, ast.Name):
             defs = [n for n in iter_own_nodes(f.node) if isinstance(n, ast.Assign) and len(n.targets) == 1 and isinstance(n.targets[0], ast.Name)
